@@ -30,6 +30,16 @@ func (e *Engine) run(st *State) {
 				if !taken {
 					idx = 1
 				}
+				// a comparison on an induction variable that the bounds already decide is recorded
+				// all the same: at a bottom-tested loop the relation (iv+step < n) has to survive
+				// the widening of iv on the back edge, where the bounds no longer imply it
+				if atom, neg := canon(cond); atom.K == KBin && atom.S == "<" {
+					for _, side := range atom.A {
+						if b, _ := AffParts(side); b != nil && b.K == KSym && b.G == 0 {
+							st.facts.b[atom] = taken != neg
+						}
+					}
+				}
 				ev := &Event{Kind: "branch", Instr: x, Fn: fr.fn, Depth: fr.depth, Pos: e.Pos(x), Cond: cond, Taken: taken, Decided: true, Succ: succs[idx]}
 				if !e.deliver(st, ev) {
 					return
